@@ -31,6 +31,10 @@ import _sweep  # noqa: E402
 
 PATTERNS = [
     (r"\bstatic\s+mut\b", "static mut"),
+    (r"\bstatic\s+(ref\s+)?[A-Za-z_][A-Za-z0-9_]*\s*:", "static item"),
+    (r"\b(Mutex|RwLock|Condvar|OnceLock|UnsafeCell|SyncUnsafeCell)\b|\bsync::Once\b|\bOnce::new\b",
+     "lock / interior mutability usable from a static"),
+    (r"\b(Cell|RefCell)\b", "interior mutability (Cell / RefCell)"),
     (r"\bthread_local!", "thread_local!"),
     (r"\blazy_static\b|\bOnceCell\b|\bOnceLock\b|\bLazyLock\b|\bLazyCell\b", "lazy/once cell"),
     (r"\bAtomic[A-Z]\w*", "atomic"),
@@ -46,6 +50,9 @@ PATTERNS = [
 # (file suffix, pattern label, regex the line must match) — the reviewed, allowed uses
 ALLOW = [
     ("src/differentiation/record_operations.rs", "pointer value", r"std::ptr::eq\(list_a, list_b\)"),
+    # the per-tape RefCell is a field of an explicit input (the WengertList the caller passes around)
+    ("src/differentiation.rs", "interior mutability (Cell / RefCell)",
+     r"^\s*use std::cell::RefCell;$|^\s*operations: RefCell<Vec<Operation<T>>>,$|^\s*operations: RefCell::new\("),
     ("src/verif_hooks.rs", None, r".*"),          # feature-gated verification hook module
     (None, "pointer value", r"cfg\(feature = \"verif-hooks\"\)|verif_hooks::"),
 ]
@@ -129,6 +136,9 @@ def own_checks(ops, answers):
             if not ms or any(x != y for x, y in ms):
                 bad.append((i, "the same computation repeated in the same process (on buffers at other "
                                "addresses) gave different bits"))
+        elif toks[1] == "naneq":
+            if not re.fullmatch(r"nan@\d+ f+", a):
+                bad.append((i, "a container holding a NaN compared equal (to itself or to an equal copy)"))
         elif toks[1] == "crosslist":
             m = re.fullmatch(r"same=(\d+) other_same_thread=(\d+)/(\d+) cross_thread=(\d+)/(\d+)", a)
             k = int(toks[2])
